@@ -24,17 +24,35 @@ theorem C10_restart_guard_meaning (lim : Option Nat) (n : Nat) :
     restartAllowed lim n = true ↔ (lim = none ∨ ∃ l, lim = some l ∧ n < l) :=
   restartAllowed_iff lim n
 
-/-- What `_run_loop` does with the outcome of invocation `n`: restart iff it was an `Exception` and the guard holds;
-otherwise the task ends with that very outcome (return, BaseException, CancelledError, or the Exception itself). -/
+/-- A *failure* of the run logic, in the sense of the property, is an `Exception`: a plain one or an `ExceptionGroup`
+(which is an `Exception`).  Not a return, not a `CancelledError` (delivered or raised by the code itself), not any
+other `BaseException` (SystemExit-, KeyboardInterrupt-like, user classes) and not a `BaseExceptionGroup` that has a
+non-`Exception` member (it is not an `ExceptionGroup`, hence no `Exception`). -/
+theorem C10_failure_meaning (o : Outcome) :
+    (o.isFailure = true ↔ (o = .exc ∨ o = .excGroup)) ∧
+    (o.isFailure = false ↔ (o = .ret ∨ o = .cancelled ∨ o = .baseExc ∨ o = .baseGroup)) := by
+  cases o <;> decide
+
+/-- The `except` clauses extracted from the source — the kinds each one catches by Python's class hierarchy, in source
+order, first match — send exactly the failures to the restarting clause: the extracted "restarts on" predicate IS the
+property's "is a failure".  (Does not build on a tree where e.g. `except Exception:` is widened to
+`except (Exception, BaseExceptionGroup):`, narrowed, moved before `except CancelledError:`, or where another clause
+restarts.) -/
+theorem C10_restart_clause_catches_failures_only (o : Outcome) : restartsOn o = o.isFailure :=
+  restartsOn_eq_isFailure o
+
+/-- What `_run_loop` does with the outcome of invocation `n`: restart iff it was a failure (an `Exception`) and the
+guard holds; otherwise the task ends with that very outcome (return, BaseException, BaseExceptionGroup, CancelledError,
+or the Exception itself). -/
 theorem C10_run_loop_dispatch (lim : Option Nat) (n : Nat) (o : Outcome) :
-    (afterRun lim n o = .restart ↔ (o = .exc ∧ restartAllowed lim n = true)) ∧
+    (afterRun lim n o = .restart ↔ (o.isFailure = true ∧ restartAllowed lim n = true)) ∧
     (afterRun lim n o ≠ .restart → afterRun lim n o = .finish o) := by
   rcases afterRun_cases lim n o with ⟨h1, h2, h3⟩ | ⟨h1, h2⟩
   · exact ⟨⟨fun _ => ⟨h2, h3⟩, fun _ => h1⟩, fun h => absurd h1 h⟩
   · refine ⟨⟨fun h => ?_, fun h => ?_⟩, fun _ => h1⟩
     · rw [h1] at h; cases h
     · rcases h2 with h2 | h2
-      · exact absurd h.1 h2
+      · rw [h.1] at h2; cases h2
       · rw [h.2] at h2; cases h2
 
 /-- The source being checked has the all-rounds `wait()` loop and a `stop()` that cancels in every round. -/
@@ -49,17 +67,20 @@ theorem C10_delay_shape : 0 < restartDelayUs ∧ delayApplies 0 = false ∧ ∀ 
 /-- Full statement of the restart clauses, on the `_run` entry/exit history of every task after every schedule. -/
 def C10_restart_statement : Prop :=
   ∀ (m : Mode) (lim : Option Nat) (es : List Event), ∀ t ∈ (Svc.exec (Svc.init m lim) es).tasks,
-    -- invocation k+1 happens only directly after invocation k raised an Exception with k < limit, after the delay
+    -- invocation k+1 happens only directly after invocation k raised an Exception (plain or ExceptionGroup) with
+    -- k < limit, after the delay
     (∀ post pre k tm, t.hist = post ++ HEv.enter (k + 1) tm :: pre →
-      ∃ t0 pre', pre = HEv.exit k .exc t0 :: pre' ∧ restartAllowed lim k = true ∧ t0 + restartDelayUs ≤ tm) ∧
+      ∃ o t0 pre', pre = HEv.exit k o t0 :: pre' ∧ o.isFailure = true ∧ restartAllowed lim k = true ∧
+        t0 + restartDelayUs ≤ tm) ∧
     -- and whenever invocation k raised an Exception with k < limit, the loop is sleeping out the delay before
     -- invocation k+1 (or was cancelled while doing so) — or is already past it
-    (∀ k tm rest, t.hist = HEv.exit k .exc tm :: rest → restartAllowed lim k = true →
+    (∀ k o tm rest, t.hist = HEv.exit k o tm :: rest → o.isFailure = true → restartAllowed lim k = true →
       t.phase = .delay (k + 1) (tm + restartDelayUs) ∨ t.phase = .done .cancelled) ∧
-    -- never re-invoked after a return, a BaseException, a cancellation, or beyond the limit: that exit is the last
-    -- event for ever and the task has ended with exactly that outcome
-    (∀ post pre k o tm, t.hist = post ++ HEv.exit k o tm :: pre → (o ≠ .exc ∨ restartAllowed lim k = false) →
-      post = [] ∧ t.phase = .done o)
+    -- never re-invoked after a return, a BaseException (incl. a BaseExceptionGroup that is no ExceptionGroup), a
+    -- cancellation, or beyond the limit: that exit is the last event for ever and the task has ended with exactly
+    -- that outcome
+    (∀ post pre k o tm, t.hist = post ++ HEv.exit k o tm :: pre →
+      (o.isFailure = false ∨ restartAllowed lim k = false) → post = [] ∧ t.phase = .done o)
 
 theorem C10_restart_iff : C10_restart_statement := by
   intro m lim es t ht
@@ -72,7 +93,7 @@ theorem C10_restart_iff : C10_restart_statement := by
   · intro post pre k tm hh
     rw [hh] at hc
     exact ChainOk_enter_succ hc
-  · intro k tm rest hh hal
+  · intro k o tm rest hh hof hal
     unfold PhaseOk at hp
     cases hph : t.phase with
     | fresh => rw [hph] at hp; simp only at hp; rw [hp] at hh; cases hh
@@ -80,15 +101,15 @@ theorem C10_restart_iff : C10_restart_statement := by
     | running n => rw [hph] at hp; obtain ⟨tm', rest', h'⟩ := hp; rw [h'] at hh; cases hh
     | delay n u =>
       rw [hph] at hp
-      obtain ⟨k', tm', rest', hn, h', _, hu⟩ := hp
+      obtain ⟨k', o', tm', rest', hn, _, h', _, hu⟩ := hp
       rw [h'] at hh; cases hh
       left; rw [hn, hu]
-    | done o =>
+    | done od =>
       rw [hph] at hp
       rcases hp with h' | ⟨k', o', tm', rest', h', hfin⟩
       · rw [h'] at hh; cases hh
       · rw [h'] at hh; cases hh
-        rw [afterRun_exc, hal] at hfin
+        rw [afterRun_failure lim k o hof, hal] at hfin
         rcases hfin with hfin | ⟨_, ho⟩
         · cases hfin
         · right; rw [ho]
@@ -98,7 +119,7 @@ theorem C10_restart_iff : C10_restart_statement := by
       rcases ChainOk_after_exit hc with h | ⟨ho, hal, _⟩
       · exact h
       · rcases hno with hno | hno
-        · exact absurd ho hno
+        · rw [ho] at hno; cases hno
         · rw [hal] at hno; cases hno
     refine ⟨hpost, ?_⟩
     subst hpost
@@ -106,7 +127,7 @@ theorem C10_restart_iff : C10_restart_statement := by
     have hfin : afterRun lim k o = .finish o := by
       rcases afterRun_cases lim k o with ⟨_, ho, hal⟩ | ⟨h1, _⟩
       · rcases hno with hno | hno
-        · exact absurd ho hno
+        · rw [ho] at hno; cases hno
         · rw [hal] at hno; cases hno
       · exact h1
     unfold PhaseOk at hp
@@ -116,10 +137,10 @@ theorem C10_restart_iff : C10_restart_statement := by
     | running n => rw [hph] at hp; obtain ⟨tm', rest', h'⟩ := hp; rw [h'] at hh; cases hh
     | delay n u =>
       rw [hph] at hp
-      obtain ⟨k', tm', rest', _, h', hal, _⟩ := hp
+      obtain ⟨k', o', tm', rest', _, hof', h', hal, _⟩ := hp
       rw [h'] at hh; cases hh
       rcases hno with hno | hno
-      · exact absurd rfl hno
+      · rw [hof'] at hno; cases hno
       · rw [hal] at hno; cases hno
     | done o2 =>
       rw [hph] at hp
@@ -131,13 +152,14 @@ theorem C10_restart_iff : C10_restart_statement := by
         · cases hf; rfl
         · cases hf
 
-/-- The run loop, one scheduler step at a time: an Exception within the limit starts the restart delay… -/
-theorem C10_restart_after_failure (lim : Option Nat) (now : Int) (t : Tsk) (n : Nat)
-    (hph : t.phase = .running n) (hal : restartAllowed lim n = true) :
-    (t.step lim now (.fin .exc)).phase = .delay (n + 1) (now + restartDelayUs) := by
+/-- The run loop, one scheduler step at a time: an Exception (plain or ExceptionGroup) within the limit starts the
+restart delay… -/
+theorem C10_restart_after_failure (lim : Option Nat) (now : Int) (t : Tsk) (n : Nat) (o : Outcome)
+    (hph : t.phase = .running n) (hof : o.isFailure = true) (hal : restartAllowed lim n = true) :
+    (t.step lim now (.fin o)).phase = .delay (n + 1) (now + restartDelayUs) := by
   obtain ⟨id, lp, phase, cr, owned, dropped, hist⟩ := t
   simp only at hph; subst hph
-  simp [Tsk.step, afterRun_exc, hal, beginIteration, delayApplies_succ]
+  simp [Tsk.step, afterRun_failure lim n o hof, hal, beginIteration, delayApplies_succ]
 
 /-- …when the delay has elapsed (and no cancellation is pending) `_run()` is entered again, and not earlier;
 a cancellation during the delay ends the task without another invocation. -/
@@ -156,16 +178,16 @@ theorem C10_restart_after_delay (lim : Option Nat) (now : Int) (r : StepRes) (t 
     simp [Tsk.step, this]
   · intro hc; simp only at hc; subst hc; simp [Tsk.step]
 
-/-- A return, a BaseException, a CancelledError, or an Exception beyond the limit end the task with that outcome;
-a finished task never moves again. -/
+/-- A return, a BaseException (SystemExit-like, KeyboardInterrupt-like, or a BaseExceptionGroup that is no ExceptionGroup),
+a CancelledError, or an Exception beyond the limit end the task with that outcome; a finished task never moves again. -/
 theorem C10_no_restart_after_return_or_cancel (lim : Option Nat) (now : Int) (t : Tsk) (n : Nat) (o : Outcome)
-    (hph : t.phase = .running n) (ho : o ≠ .exc ∨ restartAllowed lim n = false) :
+    (hph : t.phase = .running n) (ho : o.isFailure = false ∨ restartAllowed lim n = false) :
     (t.step lim now (.fin o)).phase = .done o ∧
     ∀ now' r', (t.step lim now (.fin o)).step lim now' r' = t.step lim now (.fin o) := by
   have hfin : afterRun lim n o = .finish o := by
     rcases afterRun_cases lim n o with ⟨_, h2, h3⟩ | ⟨h1, _⟩
     · rcases ho with ho | ho
-      · exact absurd h2 ho
+      · rw [h2] at ho; cases ho
       · rw [h3] at ho; cases ho
     · exact h1
   obtain ⟨id, lp, phase, cr, owned, dropped, hist⟩ := t
@@ -182,6 +204,20 @@ example :
        .taskStep 0 .cont, .taskStep 0 (.fin .exc)]
     s.tasks.map (fun t => (t.phase, t.hist)) =
       [(.done .exc, [.exit 1 .exc restartDelayUs, .enter 1 restartDelayUs, .exit 0 .exc 0, .enter 0 0])] := by
+  decide
+
+/-- Non-vacuity for the group outcomes (the `asyncio.TaskGroup` scenario): unlimited restarts; invocation 0 ends with an
+`ExceptionGroup` and is restarted after the delay; invocation 1 ends with a `BaseExceptionGroup` that carries a
+non-`Exception` error: the task ends with it for good (further steps change nothing) and `stop()` surfaces it. -/
+example :
+    let s := Svc.exec (Svc.init fixedMode none)
+      [.start, .taskStep 0 .cont, .taskStep 0 (.fin .excGroup), .advance restartDelayUs.toNat,
+       .taskStep 0 .cont, .taskStep 0 (.fin .baseGroup), .advance (5 * restartDelayUs.toNat), .taskStep 0 .cont,
+       .call .stop, .wake 0]
+    s.tasks.map (fun t => (t.phase, t.hist)) =
+      [(.done .baseGroup, [.exit 1 .baseGroup restartDelayUs, .enter 1 restartDelayUs, .exit 0 .excGroup 0,
+                           .enter 0 0])] ∧
+    s.callers.map (fun c => c.st) = [.finished [(0, .baseGroup)] (6 * restartDelayUs) 1] := by
   decide
 
 /-! ## never two runs at once -/
@@ -403,7 +439,7 @@ theorem C10_cancel_and_await_shape :
 /-- Full statement: after every schedule — task not started / running / cleaning up after one or several delivered
 cancellations / already done with any outcome, bare `task.cancel()` calls at any time, any number of concurrent
 `cancel_and_await` calls — a call that has returned left the task DONE; it raised nothing if it left through the
-guard or the task ended by returning or with `CancelledError`, and the task's own Exception / BaseException
+guard or the task ended by returning or with `CancelledError`, and the task's own Exception / BaseException / group
 otherwise (the helper propagates those, see its docstring). -/
 def C10_cancel_and_await_statement : Prop :=
   ∀ (es : List CA.Ev),
@@ -411,7 +447,7 @@ def C10_cancel_and_await_statement : Prop :=
     ∀ c ∈ s.callers, ∀ early raised tm, c = CA.CallSt.returned early raised tm →
       ∃ o, s.task.phase = .done o ∧
         (early = true → raised = none) ∧
-        (early = false → raised = match o with | .exc => some .exc | .baseExc => some .baseExc | _ => none)
+        (early = false → raised = match o with | .ret => none | .cancelled => none | e => some e)
 
 theorem C10_cancel_and_await_quiescent : C10_cancel_and_await_statement := by
   intro es s c hc early raised tm hr
